@@ -129,7 +129,8 @@ def compile_contract(desc):
             items += compile_cond(cond) + ["ISZERO", ("ref", lab), "JUMPI"] + compile_action(action) + [("label", lab)]
         items += ["STOP"]
     rt = assemble(items)
-    c = l3.Contract(desc.get("cname", "T"), [("setUp", [])] + [(t["name"], t["params"]) for t in tests], rt)
+    # "pnames": the ABI names of the parameters (default a0, a1, ...; may be empty or equal: unnamed parameters)
+    c = l3.Contract(desc.get("cname", "T"), [("setUp", [])] + [(t["name"], t["params"], t["pnames"]) if t.get("pnames") is not None else (t["name"], t["params"]) for t in tests], rt)
     return rt, c
 
 
@@ -604,6 +605,10 @@ def gen_contract(rng, n_tests=4, code_opt=None):
 #   dynelem   the failure needs a given length AND a given value of the last element / word existing at that length,
 #             under length candidates configured in any order (--default-array-lengths 2,1,0, --array-lengths a0={1,3,2})
 #                                                                                       (room of the symbolic calldata)
+#   identity  `if (!(identity(a, b))) fail` for identities of machine arithmetic that fail only at special points
+#             ((a*b)/b == a, a % b < b, ...), narrow / wide operands               (term-level simplifications)
+#   twin      two parameters of the same type whose ABI names are empty / equal; the failure needs them to differ
+#                                                                                       (one z3 constant per parameter)
 #   special   the failure sits at a point where an arithmetic operation has its special-case value (zero divisor,
 #             MIN / -1, wrap-around), reached through a symbolic operand                (abstraction + refinement)
 
@@ -745,13 +750,82 @@ def gen_special(rng, name, codes, op=None):
     return {"name": name, "params": ["uint256", "uint256"], "clauses": clauses}
 
 
-def gen_directed_contract(rng, code_opt=None, n_each=2, combos=None, ops=None, lens=None, picks=None):
+MASKS = [(1 << 128) - 1, (1 << 64) - 1, (1 << 160) - 1, 255, None]
+
+# identities of machine arithmetic that hold for all operand values EXCEPT at special points (a zero divisor, a wrapping
+# product) -- a term-level simplification that is right "in general" makes the exceptional inputs disappear.  The last
+# ones hold everywhere (controls: PASS is correct).  (template, needs narrow operands so that the product cannot wrap)
+def _identities(a, b):
+    return [
+        (["eq", ["div", ["mul", a, b], b], a], True),                                  # (a*b)/b == a      fails: b = 0, a != 0
+        (["eq", ["div", ["mul", a, b], a], b], True),                                  # (a*b)/a == b      fails: a = 0, b != 0
+        (["eq", ["div", ["mul", b, a], b], a], True),
+        (["eq", ["add", ["mul", ["div", a, b], b], ["mod", a, b]], a], False),          # (a/b)*b + a%b == a   fails: b = 0, a != 0
+        (["lt", ["mod", a, b], b], False),                                             # a % b < b         fails: b = 0
+        (["cnot", ["gt", ["div", a, b], a]], False),                                   # a / b <= a        holds everywhere
+        (["eq", ["sub", ["add", a, b], b], a], False),                                 # (a+b)-b == a      holds everywhere
+        (["eq", ["mul", ["sdiv", a, b], b], ["sub", a, ["smod", a, b]]], False),        # sdiv/smod         fails: b = 0, a != 0
+    ]
+
+
+def gen_identity(rng, name, codes, which=None):
+    """check(uint256 x, uint256 y): a = x & mask, b = y & mask;  if (!(identity(a, b))) fail"""
+    tmpl = _identities(["arg", 0], ["arg", 1])
+    k = (which if which is not None else rng.randrange(len(tmpl))) % len(tmpl)
+    need_narrow = tmpl[k][1]
+    ma = rng.choice(MASKS[:2] if need_narrow else MASKS)
+    mb = rng.choice([m for m in (MASKS[:4] if need_narrow else MASKS) if m is None or ma is None or (ma.bit_length() + m.bit_length() <= 256)] or [MASKS[1]])
+    a = ["and", ["arg", 0], ["const", ma]] if ma is not None else ["arg", 0]
+    b = ["and", ["arg", 1], ["const", mb]] if mb is not None else ["arg", 1]
+    ident = _identities(a, b)[k][0]
+    clauses = [[["cnot", ident], _violating(rng, codes)]]
+    if rng.random() < 0.3:
+        clauses.insert(0, [["gt", ["arg", 0], ["const", M - 2]], _benign(rng, codes)])
+    return {"name": name, "params": ["uint256", "uint256"], "clauses": clauses}
+
+
+def gen_twin(rng, name, codes, lens, kind=None, naming=None):
+    """two parameters of the SAME type -- with the ABI names given by `naming`: "unnamed" (""), "same" ("x") or
+    "distinct" -- and a failure that needs them to DIFFER (values, lengths or elements): the two must be independent symbols"""
+    kind = kind or rng.choice(["static", "static", "array", "bytes"])
+    naming = naming or rng.choice(["unnamed", "same"])
+    if kind == "static":
+        shape = rng.choice([["uint256", "uint256"], ["uint256", "uint256", "uint256"], ["address", "uint256", "uint256"]])
+        i, j = [k for k, t in enumerate(shape) if t == "uint256"][:2]
+        c = rng.choice([1, 2, 1 << 128, rng.getrandbits(64) + 1])
+        g = rng.choice([["lt", ["arg", j], ["arg", i]], ["gt", ["arg", j], ["arg", i]], ["eq", ["add", ["arg", i], ["const", c]], ["arg", j]],
+                        ["cand", ["eq", ["arg", i], ["const", c]], ["eq", ["arg", j], ["const", c + 1]]], ["cnot", ["eq", ["arg", i], ["arg", j]]]])
+    else:
+        t = "uint256[]" if kind == "array" else rng.choice(["bytes", "string"])
+        shape = rng.choice([[t, t], ["uint256", t, t], [t, t, "uint256"]])
+        i, j = [k for k, x in enumerate(shape) if x == t][:2]
+        eff = lens if naming == "distinct" else {**lens, "by_name": {}}      # --array-lengths addresses parameters by name
+        bi, bj = bounds_of(eff, i, t), bounds_of(eff, j, t)
+        ni = rng.choice(bi)
+        nj = rng.choice([n for n in bj if n != ni])
+        g = ["cand", ["eq", ["len", i], ["const", ni]], ["eq", ["len", j], ["const", nj]]]
+        common = [x for x in bi if x > 0 and x in bj]
+        if common and rng.random() < 0.4:
+            n = min(common)
+            el = (lambda q: ["elem", q, 0]) if kind == "array" else (lambda q: ["word", q, 0])
+            g = ["cand", ["cand", ["eq", ["len", i], ["const", n]], ["eq", ["len", j], ["const", n]]], ["cnot", ["eq", el(i), el(j)]]]
+    test = {"name": name, "params": shape, "clauses": [[g, _violating(rng, codes)]]}
+    if naming != "distinct":
+        test["pnames"] = ["" if naming == "unnamed" else "x"] * len(shape)
+    return test
+
+
+def gen_directed_contract(rng, code_opt=None, n_each=2, combos=None, ops=None, lens=None, picks=None, idents=None, twins=None):
     codes = parse_codes(code_opt)
     lens = lens or DEFAULT_LENS
     bytes_bounds, array_bounds = list(lens["bytes"]), list(lens["array"])
     tests = []
     for k, pick in enumerate(picks if picks is not None else [None] * n_each):
         tests.append(gen_dynelem(rng, f"check_de{k}", codes, lens, pick))
+    for k, which in enumerate(idents or []):
+        tests.append(gen_identity(rng, f"check_id{k}", codes, which))
+    for k, (kind, naming) in enumerate(twins or []):
+        tests.append(gen_twin(rng, f"check_tw{k}", codes, lens, kind, naming))
     for k in range(n_each):
         tests.append(gen_reread(rng, f"check_rr{k}", codes))
     for k, op in enumerate(ops if ops is not None else [None] * n_each):
